@@ -50,7 +50,8 @@ THEOREMS = [
     'C09_geomcomp_one_line', 'C09_geomcomp_lines',
     'C09_volume_gets_leaf_material', 'C09_compositions_exact',
     'C09_compositions_distinct', 'C09_geomcomp_name_has_composition',
-    'C09_write_compositions', 'C09_block_head',
+    'C09_write_compositions', 'C09_block_head', 'C09_block_written',
+    'C09_point_gets_leaf_material_linked', 'C09_density_type_by_sign',
 ]
 TRUSTED = [
     'hand-written model coq/C09/Model.v (tied by execution only); pot_fill '
@@ -66,8 +67,11 @@ TRUSTED = [
     'hierarchy (leaves) are written from the MCNP manual, not proved against '
     'anything',
     'that the cell at the head of the provenance chain owns the POINTS of the '
-    'volume is geometry (C05/C06/C13); here it is only swept by the '
-    'independent oracle (mcnpref location vs t4eval membership)',
+    'volume: linked inside Coq with C05 (C09_point_gets_leaf_material_linked, '
+    'over C05\'s abstract points/motions/senses and its model of '
+    'trcl_phase/fill_phase/inline_cells; lattices are C06); the numeric '
+    'geometry is additionally swept by the independent oracle (mcnpref '
+    'location vs t4eval membership)',
     'harness: generators, impl.T4File reader, t4eval/mcnpref oracles, PEG shim '
     'replacing TatSu',
 ]
@@ -1230,7 +1234,7 @@ def corpus(res):
 # ---------------------------------------------------------------------------
 
 def sweep_decks(res, tier, rng):
-    n_decks = 90 if tier == 'quick' else 900
+    n_decks = 90 if tier == 'quick' else 750
     n_points = 150 if tier == 'quick' else 400
     real = []
     totals = {}
